@@ -353,6 +353,38 @@ pub mod proofs {
         sylvia::utils::assert_no_intersection([&a[..la], &b[..lb]]);
         kani::cover!(true, "UNREACHABLE-EXPECTED: returned although a name is shared");
     }
+    /// N = 3, lengths <= 2: disjoint => returns
+    #[kani::proof]
+    #[kani::unwind(10)]
+    fn k_utils_disjoint_returns_n3() {
+        let a = [pick(), pick()]; let b = [pick(), pick()]; let c = [pick(), pick()];
+        let la: usize = kani::any(); let lb: usize = kani::any(); let lc: usize = kani::any();
+        kani::assume(la <= 2 && lb <= 2 && lc <= 2);
+        let mut i = 0;
+        while i < la { let mut j = 0; while j < lb { kani::assume(!same_bytes(a[i], b[j])); j += 1; } i += 1; }
+        let mut i = 0;
+        while i < la { let mut j = 0; while j < lc { kani::assume(!same_bytes(a[i], c[j])); j += 1; } i += 1; }
+        let mut i = 0;
+        while i < lb { let mut j = 0; while j < lc { kani::assume(!same_bytes(b[i], c[j])); j += 1; } i += 1; }
+        sylvia::utils::assert_no_intersection([&a[..la], &b[..lb], &c[..lc]]);
+        kani::cover!(true, "returns");
+    }
+    /// N = 3: sorted lists, the first and the third share a name => never returns
+    #[kani::proof]
+    #[kani::unwind(10)]
+    #[kani::should_panic]
+    fn k_utils_overlap_panics_n3() {
+        let a = [pick(), pick()]; let b = [pick(), pick()]; let c = [pick(), pick()];
+        let la: usize = kani::any(); let lb: usize = kani::any(); let lc: usize = kani::any();
+        kani::assume(la <= 2 && lb <= 2 && lc <= 2 && la >= 1 && lc >= 1);
+        if la == 2 { kani::assume(lt(a[0], a[1])); }
+        if lb == 2 { kani::assume(lt(b[0], b[1])); }
+        if lc == 2 { kani::assume(lt(c[0], c[1])); }
+        let ia: usize = kani::any(); let ic: usize = kani::any();
+        kani::assume(ia < la && ic < lc && same_bytes(a[ia], c[ic]));
+        sylvia::utils::assert_no_intersection([&a[..la], &b[..lb], &c[..lc]]);
+        kani::cover!(true, "UNREACHABLE-EXPECTED: returned although a name is shared");
+    }
     /// R2 cross-check: konst::cmp_str is the byte-lexicographic order and konst::eq_str is equality (strings <= 2 bytes)
     #[kani::proof]
     #[kani::unwind(6)]
